@@ -388,6 +388,63 @@ func (s *seq) opIngestBlocks(v string) (bool, error) {
 	return true, nil
 }
 
+// opParallelIngest: the octants of lower-resolution blocks arrive in separate, simultaneous POST blocks?downres=true
+// requests (one block each) - clients ingest in parallel.  Every request is acknowledged; once the instance reports
+// idle each level must be the vote over the level below, exactly as if the blocks had come one after the other.
+func (s *seq) opParallelIngest(v string) (bool, error) {
+	st := s.states[v]
+	cands := s.unwritten(st)
+	if len(cands) < 2 {
+		return false, nil
+	}
+	// all unwritten octants of one or two parents
+	parent := func(b [3]int) [3]int { return [3]int{fl2(b[0]), fl2(b[1]), fl2(b[2])} }
+	pick := parent(cands[s.r.Intn(len(cands))])
+	pick2 := parent(cands[s.r.Intn(len(cands))])
+	var blocks [][3]int
+	for _, b := range cands {
+		if parent(b) == pick || parent(b) == pick2 {
+			blocks = append(blocks, b)
+		}
+	}
+	if len(blocks) < 2 {
+		return false, nil
+	}
+	before := st.Clone()
+	var reqs []drv.Req
+	var vols [][]uint64
+	for _, b := range blocks {
+		data := s.genBox(st, [3]int{bsz, bsz, bsz}, s.style())
+		body, err := lmwire.EncodeBlockStream([]lmwire.PosBlock{{X: int32(b[0]), Y: int32(b[1]), Z: int32(b[2]), Vox: data}}, [3]int{bsz, bsz, bsz})
+		if err != nil {
+			return false, err
+		}
+		reqs = append(reqs, drv.Req{Method: "POST", URL: s.url(v, "blocks?downres=true"), Body: body})
+		vols = append(vols, data)
+	}
+	s.log("%d simultaneous POST blocks?downres=true@%s, one block each: %v", len(blocks), s.short(v), blocks)
+	resps, err := s.w.Par(reqs)
+	if err != nil {
+		return false, err
+	}
+	for i, r := range resps {
+		if !r.OK() {
+			s.states[v] = before
+			return false, s.refused("parallel-ingest-blocks", r)
+		}
+		b := blocks[i]
+		if err := st.WriteBox([3]int{b[0] * bsz, b[1] * bsz, b[2] * bsz}, [3]int{bsz, bsz, bsz}, vols[i]); err != nil {
+			return false, err
+		}
+		s.noteWrite(v, vols[i])
+		s.noteZero(v, "POST blocks", [3]int{b[0] * bsz, b[1] * bsz, b[2] * bsz}, [3]int{bsz, bsz, bsz}, vols[i])
+	}
+	s.after(v, "parallel-ingest-blocks", before)
+	s.c.Count("parallel_ingest_rounds", 1)
+	s.c.Count("parallel_ingest_requests", len(reqs))
+	return true, nil
+}
+
 // refused reports a refused legal write; a recovered panic inside the down-sampling code leaves the instance's
 // scale flags raised, so the sequence cannot continue (errStop).
 var errStop = fmt.Errorf("sequence stopped")
@@ -585,6 +642,83 @@ func (s *seq) opSplitSupervoxel(v string) (bool, error) {
 	s.see(out.SplitSupervoxel, out.RemainSupervoxel)
 	s.log("  -> split=%d remain=%d", out.SplitSupervoxel, out.RemainSupervoxel)
 	s.after(v, "split-supervoxel", before)
+	return true, nil
+}
+
+// opSolidSplit: one fresh supervoxel written over two neighbouring blocks (both become solid blocks of that one
+// label), then a split-supervoxel whose voxels all lie in the first block: the second block changes its label (to the
+// "remain" supervoxel) without a single voxel of it being named by the request, and every level has to follow.
+func (s *seq) opSolidSplit(v string) (bool, error) {
+	st := s.states[v]
+	in := map[[3]int]bool{}
+	for _, b := range s.g.Blocks() {
+		in[b] = true
+	}
+	var pairs [][3]int
+	for _, b := range s.g.Blocks() {
+		if in[[3]int{b[0] + 1, b[1], b[2]}] {
+			pairs = append(pairs, b)
+		}
+	}
+	if len(pairs) == 0 {
+		return false, nil
+	}
+	b := pairs[s.r.Intn(len(pairs))]
+	off := [3]int{b[0] * bsz, b[1] * bsz, b[2] * bsz}
+	size := [3]int{2 * bsz, bsz, bsz}
+	x := s.fresh()
+	data := make([]uint64, size[0]*size[1]*size[2])
+	for i := range data {
+		data[i] = x
+	}
+	s.log("solid-split@%s: mutate-raw off=%v size=%v all label %d", s.short(v), off, size, x)
+	r, err := s.w.Post(s.url(v, "raw/0_1_2/"+cs(size)+"/"+cs(off)+"?mutate=true"), lmwire.EncodeVolume(data))
+	if err != nil {
+		return false, err
+	}
+	if !r.OK() {
+		return false, s.refused("mutate-raw", r)
+	}
+	before := st.Clone()
+	s.noteWrite(v, st.ReadBox(off, size), data)
+	if err := st.WriteBox(off, size, data); err != nil {
+		return false, err
+	}
+	s.see(x)
+	s.after(v, "mutate-raw", before)
+	if err := s.w.Settle(); err != nil {
+		return false, err
+	}
+	sub := make([]bool, s.g.NVox())
+	for z := 3; z < 6; z++ {
+		for y := 4; y < 8; y++ {
+			for xx := 5; xx < 14; xx++ {
+				if i := s.g.Idx(off[0]+xx, off[1]+y, off[2]+z); i >= 0 {
+					sub[i] = true
+				}
+			}
+		}
+	}
+	runs := maskRuns(s.g, sub)
+	s.log("solid-split@%s: split-supervoxel sv=%d box inside block %v, runs=%d", s.short(v), x, b, len(runs))
+	r, err = s.w.Post(s.url(v, fmt.Sprintf("split-supervoxel/%d", x)), lmwire.EncodeRLEs(wire(runs)))
+	if err != nil {
+		return false, err
+	}
+	if !r.OK() {
+		return true, s.refused("split-supervoxel", r)
+	}
+	var out struct{ SplitSupervoxel, RemainSupervoxel uint64 }
+	if json.Unmarshal(r.Body, &out) != nil || out.SplitSupervoxel == 0 || out.RemainSupervoxel == 0 {
+		return false, fmt.Errorf("split-supervoxel response %q", r.Body)
+	}
+	before = st.Clone()
+	st.SplitSupervoxel(x, runs, out.SplitSupervoxel, out.RemainSupervoxel)
+	s.entry(v, x, out.SplitSupervoxel, out.RemainSupervoxel)
+	s.see(out.SplitSupervoxel, out.RemainSupervoxel)
+	s.log("  -> split=%d remain=%d", out.SplitSupervoxel, out.RemainSupervoxel)
+	s.after(v, "split-supervoxel", before)
+	s.c.Count("solid_block_splits", 1)
 	return true, nil
 }
 
@@ -1002,6 +1136,8 @@ func sequence(c *drv.Ctx, w *drv.Worker, seed int64, idx int, nops int, negative
 			x = r.Intn(40)
 		}
 		switch {
+		case x < 8:
+			done, err = s.opParallelIngest(v)
 		case x < 20:
 			done, err = s.opIngestBlocks(v)
 		case x < 40:
@@ -1010,8 +1146,10 @@ func sequence(c *drv.Ctx, w *drv.Worker, seed int64, idx int, nops int, negative
 			done, err = s.opWriteRaw(v, true)
 		case s.taint[v]:
 			done, err = s.opWriteRaw(v, true)
-		case x < 87:
+		case x < 85:
 			done, err = s.opSplitSupervoxel(v)
+		case x < 92:
+			done, err = s.opSolidSplit(v)
 		default:
 			done, err = s.opSplitBody(v)
 		}
